@@ -201,7 +201,7 @@ def directed(cfg):
     for gname, child in (("n", "n"), ("n", "nn"), ("nn", "n"), ("n", "m")):
         g, d = "/" + gname, f"/{gname}/{child}"
         for pre in ([], [["attach", d, "vt.aa"]], [["attach", d, "vt.aa"], ["B"]]):
-            for op in (["gcopy", g, child, "zz"], ["gmove", g, child, "zz"], ["gcopy", g, child, "yy/zz"], ["copy", d, "/zz"], ["move", d, "/zz"], ["copy", d, f"{g}/zz"], ["copy", g, "/zz"], ["move", g, "/zz"]):
+            for op in (["gcopy", g, child, "zz"], ["gmove", g, child, "zz"], ["gcopy", g, child, "yy/zz"], ["copy", d, "/zz", False], ["move", d, "/zz"], ["copy", d, f"{g}/zz", False], ["copy", g, "/zz", False], ["move", g, "/zz"], ["copyobj", d, "/zz"], ["copyobj", g, "/zz"], ["copy", "/", "/zz", False]):
                 for tail in ([], [["R"]]):
                     out.append([["mkgrp", g], ["mkds", d]] + pre + [op] + tail)
     return out
